@@ -89,6 +89,25 @@ class Tools:
         return p.returncode, p.stdout + "\n" + p.stderr, p.stderr
 
 
+def error_exit_only_leaks(rc, err):
+    """a tool that ends with an error message and a nonzero status does not release its environment: LeakSanitizer's report at
+    such an exit is not counted (the library-level checks cover leaks of the library on error paths)"""
+    return rc != 0 and "LeakSanitizer" in err and "ERROR: AddressSanitizer" not in err and "runtime error" not in err and \
+        re.search(r"[Ee]rror|[Oo]verflow|Could not|Invalid|Inconsistent|Time limit", err) is not None
+
+
+def error_exit(op, tk, e, rc, err):
+    """a tool ended with an error status and no sanitizer report: fine (and not judged) when the input is outside the tool's documented
+    domain, a failure when the input is valid"""
+    kind = tk[1] if op == "sp" else ""
+    binary_only = op in ("regular", "graphic", "ctu") or (op == "sp" and kind == "bin")
+    allowed = (0, 1) if binary_only else (-1, 0, 1)
+    if op in ("equimod", "mat", "repmat") or all(x in allowed for x in e):
+        last = [l for l in err.strip().split("\n") if l.strip()]
+        return "crash:cli rc=%d error-exit-on-valid-input[%s]" % (rc, (last[-1] if last else "").replace(" ", "_")[:100])
+    return "skip-cli"
+
+
 def crash_summary(rc, err):
     m = re.search(r"Assertion `(.*?)' failed", err)
     if m: return "crash:cli rc=%d assert[%s]" % (rc, m.group(1).replace(" ", "_")[:80])
@@ -113,6 +132,7 @@ def one_op(T, line, k):
     tk = [t for t in line.split() if not t.startswith("@")]
     if not tk: return "skip-cli"
     op = tk[0]
+    e = []
     with tempfile.TemporaryDirectory(prefix="cmrcli") as d:
         def write(name, txt):
             open(os.path.join(d, name), "w").write(txt)
@@ -142,7 +162,7 @@ def one_op(T, line, k):
                 mm = re.search(r"Matrix IS( NOT)? %s" % word, out)
                 if rc != 0 or not mm:
                     # documented input errors (non-ternary / non-binary input) are answered by a message and a nonzero status
-                    if rc != 0 and not re.search(r"Sanitizer|Assertion|runtime error", err): return "err:CLI%d" % rc + TRAILER
+                    if rc != 0 and (error_exit_only_leaks(rc, err) or not re.search(r"Sanitizer|Assertion|runtime error", err)): return error_exit(op, tk, e, rc, err)
                     return crash_summary(rc, err)
                 v = "no" if mm.group(1) else "yes"
                 sub = parse_submat(read("sub.txt")) if (op == "tu" and (mask >> 18) & 1 and v == "no") else " -"
@@ -153,9 +173,10 @@ def one_op(T, line, k):
                 args = matfile(m, n, e) + (["-t"] if t else [])
                 rc, out, err = T.run("cmr-" + op, args, d)
                 word = {("graphic", 0): "graphic", ("graphic", 1): "cographic", ("network", 0): "network", ("network", 1): "conetwork"}[(op, t)]
-                mm = re.search(r"Matrix (?:IS|is)( NOT)? %s" % word, out)
+                # "Matrix IS graphic." / "Matrix is NOT conetwork." / "Matrix is NOT cographic since it is not binary: …"
+                mm = re.search(r"Matrix (?:IS|is)( NOT)? (?:co)?(?:graphic|network)", out)
                 if rc != 0 or not mm:
-                    if rc != 0 and not re.search(r"Sanitizer|Assertion|runtime error", err): return "err:CLI%d" % rc + TRAILER
+                    if rc != 0 and (error_exit_only_leaks(rc, err) or not re.search(r"Sanitizer|Assertion|runtime error", err)): return error_exit(op, tk, e, rc, err)
                     return crash_summary(rc, err)
                 v = "no" if mm.group(1) else "yes"
                 if op == "graphic":
@@ -176,7 +197,7 @@ def one_op(T, line, k):
                 rc, out, err = T.run("cmr-series-parallel", args, d)
                 mm = re.search(r"Matrix (?:IS|is)( NOT)? series-parallel", out)
                 if rc != 0 or not mm:
-                    if rc != 0 and not re.search(r"Sanitizer|Assertion|runtime error", err): return "err:CLI%d" % rc + TRAILER
+                    if rc != 0 and (error_exit_only_leaks(rc, err) or not re.search(r"Sanitizer|Assertion|runtime error", err)): return error_exit(op, tk, e, rc, err)
                     return crash_summary(rc, err)
                 v = "no" if mm.group(1) else "yes"
                 res = "ok %s" % v
@@ -191,7 +212,7 @@ def one_op(T, line, k):
                 rc, out, err = T.run("cmr-camion", args, d)
                 mm = re.search(r"Matrix IS( NOT)? Camion-signed", out)
                 if rc != 0 or not mm:
-                    if rc != 0 and not re.search(r"Sanitizer|Assertion|runtime error", err): return "err:CLI%d" % rc + TRAILER
+                    if rc != 0 and (error_exit_only_leaks(rc, err) or not re.search(r"Sanitizer|Assertion|runtime error", err)): return error_exit(op, tk, e, rc, err)
                     return crash_summary(rc, err)
                 v = "no" if mm.group(1) else "yes"
                 return "ok %s%s" % (v, parse_submat(read("sub.txt")) if want and v == "no" else " -") + TRAILER
@@ -204,7 +225,7 @@ def one_op(T, line, k):
                 rc, out, err = T.run("cmr-balanced", args, d)
                 mm = re.search(r"Matrix IS( NOT)? balanced", out)
                 if rc != 0 or not mm:
-                    if rc != 0 and not re.search(r"Sanitizer|Assertion|runtime error", err): return "err:CLI%d" % rc + TRAILER
+                    if rc != 0 and (error_exit_only_leaks(rc, err) or not re.search(r"Sanitizer|Assertion|runtime error", err)): return error_exit(op, tk, e, rc, err)
                     return crash_summary(rc, err)
                 v = "no" if mm.group(1) else "yes"
                 return "ok %s%s" % (v, parse_submat(read("sub.txt")) if want and v == "no" else " -") + TRAILER
@@ -214,7 +235,7 @@ def one_op(T, line, k):
                 rc, out, err = T.run("cmr-ctu", args, d)
                 mm = re.search(r"Matrix IS( NOT)? complement totally unimodular", out)
                 if rc != 0 or not mm:
-                    if rc != 0 and not re.search(r"Sanitizer|Assertion|runtime error", err): return "err:CLI%d" % rc + TRAILER
+                    if rc != 0 and (error_exit_only_leaks(rc, err) or not re.search(r"Sanitizer|Assertion|runtime error", err)): return error_exit(op, tk, e, rc, err)
                     return crash_summary(rc, err)
                 if not mm.group(1):
                     return "ok yes 777777 777777" + TRAILER       # the library does not write the witness for 'yes' either
@@ -230,8 +251,8 @@ def one_op(T, line, k):
                 args = matfile(m, n, e) + (["-s"] if "s" in fn else []) + (["-u"] if "u" in fn else [])
                 rc, out, err = T.run("cmr-equimodular", args, d)
                 if rc != 0:
-                    if re.search(r"[Oo]verflow", out + err) and not re.search(r"Sanitizer|Assertion|runtime error", err): return "err:OVERFLOW" + TRAILER
-                    if not re.search(r"Sanitizer|Assertion|runtime error", err): return "err:CLI%d" % rc + TRAILER
+                    if re.search(r"[Oo]verflow", out + err) and (error_exit_only_leaks(rc, err) or not re.search(r"Sanitizer|Assertion|runtime error", err)): return "err:OVERFLOW" + TRAILER
+                    if error_exit_only_leaks(rc, err) or not re.search(r"Sanitizer|Assertion|runtime error", err): return error_exit(op, tk, e, rc, err)
                     return crash_summary(rc, err)
                 word = "unimodular" if "u" in fn else "equimodular"
                 if "s" in fn:
@@ -274,7 +295,7 @@ def one_op(T, line, k):
                 rc, out, err = T.run("cmr-network" if directed else "cmr-graphic", args, d)
                 res = parse_dense(read("out.txt"))
                 if rc != 0 or res is None:
-                    if rc != 0 and not re.search(r"Sanitizer|Assertion|runtime error", err): return "err:CLI%d" % rc + TRAILER
+                    if rc != 0 and (error_exit_only_leaks(rc, err) or not re.search(r"Sanitizer|Assertion|runtime error", err)): return error_exit(op, tk, e, rc, err)
                     return crash_summary(rc, err or "no output matrix")
                 # isolated nodes do not appear in an edge list: the judge is told the number of nodes that do
                 return "ok correct=?%s%s" % ((" -" + csr_tokens(*res)) if transposed else (csr_tokens(*res) + " -"), "") + TRAILER
@@ -287,7 +308,7 @@ def one_op(T, line, k):
                 rc, out, err = T.run("cmr-matrix", args, d)
                 res = parse_dense(read("out.txt"))
                 if rc != 0 or res is None:
-                    if rc != 0 and not re.search(r"Sanitizer|Assertion|runtime error", err): return "err:CLI%d" % rc + TRAILER
+                    if rc != 0 and (error_exit_only_leaks(rc, err) or not re.search(r"Sanitizer|Assertion|runtime error", err)): return error_exit(op, tk, e, rc, err)
                     return crash_summary(rc, err or "no output matrix")
                 return "ok" + csr_tokens(*res) + TRAILER
         except subprocess.TimeoutExpired:
